@@ -178,6 +178,7 @@ class Replay:
                 while len(pending) > 4 * self.procs:
                     self._absorb(pending.pop(0).get())
                 if limit and n_lines >= limit:
+                    for_lines.close()
                     break
             if batch:
                 pending.append(pool.apply_async(_work, (batch,)))
